@@ -260,12 +260,14 @@ Section Blocks.
   Let upperT := mstack (mconcat T00 T01) (mconcat (mzero n2 n1) T11).
 
   Lemma wf_lowerT : wf lowerT.
-  Proof.
+  Proof using W00 W10 W11 R00 C00 R10 C10 R11 C11.
+    clear W01 R01 C01.
     unfold lowerT. apply wf_mstack; [apply wf_mconcat|apply wf_mconcat|]; auto with wf;
       cbn [nr nc mconcat mzero]; congruence.
   Qed.
   Lemma wf_upperT : wf upperT.
-  Proof.
+  Proof using W00 W01 W11 R00 C00 R01 C01 R11 C11.
+    clear W10 R10 C10.
     unfold upperT. apply wf_mstack; [apply wf_mconcat|apply wf_mconcat|]; auto with wf;
       cbn [nr nc mconcat mzero]; congruence.
   Qed.
@@ -273,7 +275,8 @@ Section Blocks.
   (** left products: X = [X0; X1] *)
   Lemma mmul_lower_block X0 X1 : wf X0 -> wf X1 -> nr X0 = n1 -> nr X1 = n2 -> nc X0 = nc X1 ->
     mmul lowerT (mstack X0 X1) = mstack (mmul T00 X0) (madd (mmul T10 X0) (mmul T11 X1)).
-  Proof.
+  Proof using W00 W10 W11 R00 C00 R10 C10 R11 C11.
+    clear W01 R01 C01.
     intros H0 H1 Hr0 Hr1 Hc. unfold lowerT. rewrite mmul_mstack_l. f_equal.
     - rewrite mmul_concat_stack; auto with wf; try (cbn [nr nc mzero]; congruence).
       rewrite <- Hr1, mmul_zero_l by assumption.
@@ -285,7 +288,8 @@ Section Blocks.
 
   Lemma mmul_upper_block X0 X1 : wf X0 -> wf X1 -> nr X0 = n1 -> nr X1 = n2 -> nc X0 = nc X1 ->
     mmul upperT (mstack X0 X1) = mstack (madd (mmul T00 X0) (mmul T01 X1)) (mmul T11 X1).
-  Proof.
+  Proof using W00 W01 W11 R00 C00 R01 C01 R11 C11.
+    clear W10 R10 C10.
     intros H0 H1 Hr0 Hr1 Hc. unfold upperT. rewrite mmul_mstack_l. f_equal.
     - apply mmul_concat_stack; auto; congruence.
     - rewrite mmul_concat_stack; auto with wf; try (cbn [nr nc mzero]; congruence).
@@ -298,7 +302,8 @@ Section Blocks.
   (** right products: X = [X0 | X1] *)
   Lemma mmul_r_upper_block X0 X1 : wf X0 -> wf X1 -> nr X0 = nr X1 -> nc X0 = n1 -> nc X1 = n2 ->
     mmul (mconcat X0 X1) upperT = mconcat (mmul X0 T00) (madd (mmul X0 T01) (mmul X1 T11)).
-  Proof.
+  Proof using W00 W01 W11 R00 C00 R01 C01 R11 C11.
+    clear W10 R10 C10.
     intros H0 H1 Hr Hc0 Hc1. unfold upperT.
     assert (wf (mconcat T00 T01)) by (apply wf_mconcat; auto; congruence).
     assert (wf (mconcat (mzero n2 n1) T11)) by (apply wf_mconcat; auto with wf; cbn [nr mzero]; congruence).
@@ -314,7 +319,8 @@ Section Blocks.
 
   Lemma mmul_r_lower_block X0 X1 : wf X0 -> wf X1 -> nr X0 = nr X1 -> nc X0 = n1 -> nc X1 = n2 ->
     mmul (mconcat X0 X1) lowerT = mconcat (madd (mmul X0 T00) (mmul X1 T10)) (mmul X1 T11).
-  Proof.
+  Proof using W00 W10 W11 R00 C00 R10 C10 R11 C11.
+    clear W01 R01 C01.
     intros H0 H1 Hr Hc0 Hc1. unfold lowerT.
     assert (wf (mconcat T00 (mzero n1 n2))) by (apply wf_mconcat; auto with wf; cbn [nr mzero]; congruence).
     assert (wf (mconcat T10 T11)) by (apply wf_mconcat; auto; congruence).
@@ -328,3 +334,61 @@ Section Blocks.
     apply madd_zero_l. auto with wf.
   Qed.
 End Blocks.
+
+(** * block decomposition of the unit triangular matrices read from a storage matrix *)
+Ltac bsolve :=
+  repeat match goal with
+  | |- context [?a <? ?b] => destruct (Nat.ltb_spec a b)
+  | |- context [?a =? ?b] => destruct (Nat.eqb_spec a b)
+  end; cbn [andb orb negb]; try reflexivity; try lia.
+
+Ltac shift_index i n1 i' :=
+  let E := fresh "E" in
+  assert (E : i = n1 + (i - n1)) by lia; set (i' := i - n1) in *; clearbody i'; subst i.
+
+Lemma unit_lower_blocks n1 n2 L : n1 + n2 <= length (rows L) ->
+  unit_lower (n1 + n2) L =
+  mstack (mconcat (unit_lower n1 (msub L 0 0 n1 n1)) (mzero n1 n2))
+         (mconcat (msub L n1 0 n2 n1) (unit_lower n2 (msub L n1 n1 n2 n2))).
+Proof.
+  intros Hlen.
+  assert (W10 : wf (msub L n1 0 n2 n1)) by (apply wf_msub; lia).
+  assert (Wt : wf (mconcat (unit_lower n1 (msub L 0 0 n1 n1)) (mzero n1 n2))) by (apply wf_mconcat; auto with wf).
+  assert (Wb : wf (mconcat (msub L n1 0 n2 n1) (unit_lower n2 (msub L n1 n1 n2 n2)))) by (apply wf_mconcat; auto with wf).
+  apply mat_ext; auto with wf.
+  intros i j Hi Hj. cbn [nr nc unit_lower] in Hi, Hj.
+  rewrite get_mstack by assumption. cbn [nr mconcat unit_lower].
+  destruct (Nat.ltb_spec i n1) as [Hi1|Hi1].
+  - rewrite get_mconcat by auto with wf. cbn [nc unit_lower].
+    rewrite !get_unit_lower, get_msub, get_mzero by lia. cbn [Nat.add]. bsolve.
+  - shift_index i n1 i'. rewrite get_mconcat by auto with wf. cbn [nc msub].
+    rewrite !get_unit_lower, !get_msub by lia. cbn [Nat.add].
+    destruct (Nat.ltb_spec j n1) as [Hj1|Hj1].
+    + bsolve.
+    + shift_index j n1 j'. replace (n1 + j' - n1) with j' by lia. bsolve.
+Qed.
+
+Lemma unit_upper_blocks n1 n2 U : n1 + n2 <= length (rows U) ->
+  unit_upper (n1 + n2) U =
+  mstack (mconcat (unit_upper n1 (msub U 0 0 n1 n1)) (msub U 0 n1 n1 n2))
+         (mconcat (mzero n2 n1) (unit_upper n2 (msub U n1 n1 n2 n2))).
+Proof.
+  intros Hlen.
+  assert (W01 : wf (msub U 0 n1 n1 n2)) by (apply wf_msub; lia).
+  assert (Wt : wf (mconcat (unit_upper n1 (msub U 0 0 n1 n1)) (msub U 0 n1 n1 n2))) by (apply wf_mconcat; auto with wf).
+  assert (Wb : wf (mconcat (mzero n2 n1) (unit_upper n2 (msub U n1 n1 n2 n2)))) by (apply wf_mconcat; auto with wf).
+  apply mat_ext; auto with wf.
+  intros i j Hi Hj. cbn [nr nc unit_upper] in Hi, Hj.
+  rewrite get_mstack by assumption. cbn [nr mconcat unit_upper].
+  destruct (Nat.ltb_spec i n1) as [Hi1|Hi1].
+  - rewrite get_mconcat by auto with wf. cbn [nc unit_upper].
+    rewrite !get_unit_upper, !get_msub by lia. cbn [Nat.add].
+    destruct (Nat.ltb_spec j n1) as [Hj1|Hj1].
+    + bsolve.
+    + shift_index j n1 j'. replace (n1 + j' - n1) with j' by lia. bsolve.
+  - shift_index i n1 i'. rewrite get_mconcat by auto with wf. cbn [nc mzero].
+    rewrite !get_unit_upper, get_msub, get_mzero by lia. cbn [Nat.add].
+    destruct (Nat.ltb_spec j n1) as [Hj1|Hj1].
+    + bsolve.
+    + shift_index j n1 j'. replace (n1 + j' - n1) with j' by lia. bsolve.
+Qed.
